@@ -238,7 +238,15 @@ func execute(t *testing.T, ck *Check, run int, seed uint64, scen, sched *simrt.T
 		}()
 		synctest.Test(t, func(t *testing.T) {
 			simrt.ResetRand(seed)
-			ck.Run(ctx)
+			func() {
+				defer func() {
+					if r := recover(); r != nil {
+						res.Violations = append(res.Violations, Violation{Clause: "harness-panic", Key: "harness",
+							Msg: fmt.Sprintf("%v\n%s", r, debug.Stack())})
+					}
+				}()
+				ck.Run(ctx)
+			}()
 			if s := simrt.S; s != nil {
 				res.Hash = fmt.Sprintf("%016x", s.Hash())
 				res.Steps = s.Steps
